@@ -76,9 +76,11 @@ def to_ledger_blk(obs):
 class NodeRec:
     """Adapter so that checks.ledger.RandomTree drives a node instead of a bare CoinState."""
 
-    def __init__(self, run, rng):
+    def __init__(self, run, rng, ibd_p=0.0):
         self.run = run
         self.rng = rng
+        self.ibd_p = ibd_p          # probability that a block arrives as the answer to a request (bulk download: in_response_to != 0)
+        self.force_irt = None
 
     @property
     def cs(self):
@@ -91,7 +93,8 @@ class NodeRec:
             return "rej"
         run.clock.t = now
         before = set(run.node.chain().block_by_hash.keys())
-        run.deliver_block(self.rng.choice(openp), block, irt=0, label=label)
+        irt = self.force_irt if self.force_irt is not None else (77 if self.rng.random() < self.ibd_p else 0)
+        run.deliver_block(self.rng.choice(openp), block, irt=irt, label=label)
         after = run.node.chain().block_by_hash
         return "ok" if block.hash() in after and block.hash() not in before else "rej"
 
@@ -224,17 +227,49 @@ def run(pid, tier, replay=None):
 
         # ---- (c) randomized mixes
         n, steps = (25, 14) if quick else (300, 30)
+        # every third run is a bulk download: blocks also arrive as answers to requests (in_response_to != 0) and are then validated only
+        # at every 3rd height (IBD_VALIDATION_SKIP patched to 3); a validated block that fails rolls the node back to its last validated state
+        import skepticoin.networking.remote_peer as rp_
+        real_skip = rp_.IBD_VALIDATION_SKIP
+        traces_i, labels_i = [], []
         for i in range(n):
+            ibd = i % 3 == 2
+            rp_.IBD_VALIDATION_SKIP = 3 if ibd else real_skip
             w3 = sk.World(cfg, keys, tag=b"n%d" % i)
             g3 = w3.make_genesis(ts=5000)
             tid += 1
             run_ = node_drv.NodeRun(w3, g3, peers=PEERS, tid=tid, clock0=5000)
             try:
-                rec = NodeRec(run_, rng)
-                rt = RandomTree(w3, rec, rng, nkeys=3, p_mut=0.45 if pid == "C09" else 0.15)
+                rec = NodeRec(run_, rng, ibd_p=0.5 if ibd else 0.0)
+                rt = RandomTree(w3, rec, rng, nkeys=3, p_mut=0.45 if pid == "C09" else (0.3 if ibd else 0.15))
                 lab = []
                 held = []
+                if ibd and i % 2 == 1:
+                    # scripted opening: a requested block is applied unvalidated, a transaction spends an output it created, then a
+                    # broadcast block that passes the by-itself rules but not the in-state rules rolls the head back
+                    head_abs = rt.stored[-1]
+                    rec.force_irt = 77
+                    res, m = rt.step(force="", parent=head_abs)
+                    rec.force_irt = None
+                    lab.append(["block_ibd", m, res])
+                    if res == "ok":
+                        new_abs = rt.stored[-1]
+                        before_rows = set(map(tuple, rt.utxo_of(head_abs)))
+                        rows = [r for r in rt.utxo_of(new_abs) if tuple(r) not in before_rows]
+                        t = rt.valid_tx(rows, 40000 + i * 100, set())
+                        openp = [p for p in run_.peers if run_.node.is_open(p)]
+                        if t is not None and openp:
+                            td = {k_: v for k_, v in t.items() if k_ not in ("_pick", "_fee")}
+                            td.setdefault("_owner", {0: t["ins"][0]["signer"] if t["ins"] else 1})
+                            ctx = w3.concretise_tx(td)
+                            run_.deliver_tx(rng.choice(openp), ctx, label="spends_unvalidated_output")
+                            lab.append(["tx", "spends_unvalidated_output"])
+                            held.append(ctx)
+                        res, m = rt.step(force=rng.choice(["reward+1", "ts_equal", "badtarget"]), parent=new_abs)
+                        lab.append(["block", m, res])
                 for k in range(steps):
+                    # after a roll-back the node no longer holds the unvalidated blocks: build only on what it serves
+                    rt.stored = [a for a in rt.stored if w3.by_abs[a].hash() in run_.node.chain().block_by_hash]
                     act = rng.random()
                     if held and rng.random() < 0.15:          # an earlier transaction is submitted again (a lagging peer re-broadcasts it)
                         openp = [p for p in run_.peers if run_.node.is_open(p)]
@@ -275,12 +310,16 @@ def run(pid, tier, replay=None):
                             if rng.random() < 0.2 and [p for p in run_.peers if run_.node.is_open(p)]:
                                 run_.deliver_tx(rng.choice([p for p in run_.peers if run_.node.is_open(p)]), ctx, label="dup")
                 if run_.events:
-                    traces.append(run_.trace())
-                    labels.append(lab)
-                chk.case(json.dumps(lab), nontrivial=True)
+                    (traces_i if ibd else traces).append(run_.trace())
+                    (labels_i if ibd else labels).append(lab)
+                chk.case(json.dumps([ibd, lab]), nontrivial=True)
             finally:
                 run_.close()
+                rp_.IBD_VALIDATION_SKIP = real_skip
+        for k in range(0, len(traces_i), 120):
+            judge(chk, traces_i[k:k + 120], labels_i[k:k + 120], dict(consts, IbdSkip=3))
         chk.sample({"source": "randomized delivery mix", "steps": labels[-1][:10]})
+        chk.sample({"source": "randomized delivery mix, bulk download", "steps": labels_i[-1][:10]})
         chk.extra["rule"] = ("behaviour = sequence of block/transaction deliveries to one node with the real store: MC_Node behaviours (path cover of the "
                              "state graph, sampled) and randomized mixes (valid blocks on any fork, duplicates, orphans, every rejection class incl. blocks "
                              "that cannot be applied; valid/conflicting/malformed transactions interleaved with head changes); non-trivial = at least 2 deliveries")
